@@ -109,6 +109,17 @@ pub fn make_key(pw: &Option<String>, kf: &Option<Vec<u8>>) -> DatabaseKey {
     k
 }
 
+/// random bytes that are not XML, not 32 bytes long, and whose length and first byte make `make_key` deliver them in pieces of 4096 bytes
+pub fn large_keyfile(rng: &mut Rng, len: usize) -> Vec<u8> {
+    let mut b = rng.bytes(len);
+    b[0] = ((4 + 5 - len % 5) % 5) as u8;
+    b[1] = 0; // `uses_decoy` looks at this byte: no decoy for large files
+    if uses_decoy(&b) {
+        b[1] = 1;
+    }
+    b
+}
+
 /// whether `make_key` first hands the key a decoy key file (a function of the key file, so that it replays)
 pub fn uses_decoy(f: &[u8]) -> bool {
     (f.len() + f.get(1).copied().unwrap_or(0) as usize) % 4 == 3
@@ -235,10 +246,15 @@ fn tiny_xml() -> Vec<u8> {
 
 pub fn run(ctx: &mut Ctx) {
     let count = ctx.count(300, 5000);
-    for _ in 0..count {
+    for ci in 0..count {
         let mut rng = ctx.rng.fork();
         let pw: Option<String> = if rng.chance(3, 4) { Some(rng.pick(PASSWORDS).to_string()) } else { None };
-        let (kf, kf_kind): (Option<Vec<u8>>, &str) = if rng.chance(3, 4) {
+        let (kf, kf_kind): (Option<Vec<u8>>, &str) = if ci % 60 == 59 {
+            // a key file of many MiB (a photo, a song): size just above a power of two; delivered in pieces of 4096 bytes
+            let exps: &[u32] = if ctx.thorough { &[20, 22, 24, 25, 26] } else { &[20, 22, 24] };
+            let len = (1usize << *rng.pick(exps)) + 1 + rng.below(7) as usize;
+            (Some(large_keyfile(&mut rng, len)), "opaque-large")
+        } else if rng.chance(3, 4) {
             let (b, k) = gen_keyfile(&mut rng);
             (Some(b), k)
         } else {
@@ -306,7 +322,12 @@ pub fn run(ctx: &mut Ctx) {
         ctx.emit(json!({
             "op": "key",
             "password": pw,
-            "keyfile": kf.as_ref().map(|b| json!({"bytes": hex::encode(b), "view": xml_view(b)})),
+            // a large key file travels as a 40-byte stand-in plus the SHA-256 of the real file (the model hashes the stand-in to that digest)
+            "keyfile": kf.as_ref().map(|b| if b.len() > 65_536 {
+                json!({"bytes": hex::encode(&b[..40]), "view": xml_view(b), "sha256": hex::encode(crate::kdbx::sha256(&[b])), "len": b.len()})
+            } else {
+                json!({"bytes": hex::encode(b), "view": xml_view(b)})
+            }),
             "tags": [format!("keyfile:{}", kf_kind), if pw.is_some() { "password" } else { "no-password" }.to_string(),
                      if kf.as_ref().map(|f| uses_decoy(f)).unwrap_or(false) { "keyfile-given-twice" } else { "keyfile-given-once" }.to_string()],
             "nontrivial": kf.is_some() || pw.as_deref().map(|p| p.is_empty() || !p.is_ascii()).unwrap_or(false),
